@@ -599,7 +599,12 @@ theorem s4_live : LiveInv s4 := by
 example : FreeHeadFree s4 ∧ s4.slots.length ≤ s4.locs.length ∧ s4.slots.length < nullId :=
   ⟨fun h => absurd (by decide) h, by decide, by decide⟩
 
-/-! ## what is left -/
+/-! ## what is left here (and where it is proved)
+
+The two statements below are kept visible at full strength.  They are NOT proved in this file in this form (from
+`RowInv`/`LiveInv` alone); they ARE proved for every state a history within the contract reaches, and for every state that
+satisfies the refinement invariant `Inv` and is related to a spec state, in `Props/Refinement.lean`:
+`rows_live_every_prefix`, `liveInv_through_flush`, `liveInv_through_clear_update` (audited with this property). -/
 
 /-- `PacksOK` discharged from the invariants instead of assumed: needs `LiveInv` (and the C01 facts
 about reserved handles) carried through `applyCommandPack` -/
